@@ -52,9 +52,9 @@ class Item:
         self.case, self.cfg, self.built, self.ans, self.raw, self.line = case, cfg, built, ans, raw, line
 
 
-def run_items(ctx, pairs, predicate, nontrivial=None, compare=True, model_override=None):
+def run_items(ctx, pairs, predicate, nontrivial=None, compare=True, model_override=None, keep=True):
     """pairs: iterable of (case, cfg).  predicate(item) -> list of violation dicts.
-    nontrivial(item) -> bool."""
+    nontrivial(item) -> bool.  keep=False (high-volume predicate-only streams): the items are not retained."""
     items = []
     for case, cfg in pairs:
         if ctx.budget_s is not None and ctx.elapsed() > ctx.budget_s:
@@ -79,7 +79,8 @@ def run_items(ctx, pairs, predicate, nontrivial=None, compare=True, model_overri
             ctx.violations.append(v)
         if nontrivial is None or nontrivial(it):
             ctx.nontrivial.add(case.key() + json.dumps(cfg_json(cfg), sort_keys=True))
-        items.append(it)
+        if keep or compare:
+            items.append(it)
     if compare:
         lines = [it.line for it in items]
         outs = core.run_driver(lines)
